@@ -516,3 +516,13 @@ def type_constraint(t: z3.ExprRef, ty: Ty, reg: Registry, depth=0, shallow=False
 
 def to_val(v) -> z3.ExprRef:
     return v.val()
+
+
+def forall_pat(vars_, body, pattern=None):
+    """ForAll with an E-matching pattern when the pattern term is admissible (no ite / boolean connectives), else without"""
+    if pattern is not None:
+        try:
+            return z3.ForAll(vars_, body, patterns=[pattern])
+        except z3.Z3Exception:
+            pass
+    return z3.ForAll(vars_, body)
